@@ -10,7 +10,12 @@
    order of the implementation).  [o_step] accepts exactly the answers the statement allows
    for one operation and advances the abstract map; it is evaluated on the observables of
    the implementation by the check, and the model is proved to satisfy it (Proofs/AuthP.v)
-   outside the known-finding classes [kf_*] below. *)
+   for every history.  The one open known finding, [kf_authmethod_present], concerns the
+   CONNECT path of the broker ([c19_connect_ok]).
+   The only environment fault the oracle knows is an operation of the case itself: OBreak
+   makes the directory of the password file unavailable - then a restart cannot load and
+   there is no file to read (both must be reported as such), and API calls may fail, with
+   no effect. *)
 From Coq Require Import List NArith Bool Arith.
 Import ListNotations.
 From GM Require Import Base.Topic Model.Auth.
@@ -40,7 +45,7 @@ Section Oracle.
   Definition cred_ok (a : halg) (m : amap) (u p : str) : bool :=
     match t_get u m with Some h => au_matches H bverify a h p | None => false end.
 
-  Definition o_step (a : halg) (m : amap) (o : aop) (x : aout) : option amap :=
+  Definition o_step (a : halg) (avail : bool) (m : amap) (o : aop) (x : aout) : option amap :=
     match o, x with
     (* a successful Update stores a value that the given password matches *)
     | OUpdate u p g, XOk =>
@@ -64,23 +69,32 @@ Section Oracle.
            && (N.of_nat (length l) <=? sz)
            && (if (page <=? 1) && (N.of_nat (length l) <? sz) then forallb (fun acc => acc_in acc l) m else true)
         then Some m else None
-    | OChdir _ _, XOk => Some m
+    | OChdir _, XOk => Some m
+    | OBreak _, XOk => Some m
     | OValidate u p, XBool b => if Bool.eqb b (cred_ok a m u p) then Some m else None
     (* composed with an earlier hook: accepted iff the earlier hook accepts and the
        credentials are those of an account *)
     | OAuth pre _ c, XAuth r =>
-        if Bool.eqb (is_ok r) (is_ok pre && cred_ok a m (cn_username c) (cn_password c)) then Some m else None
+        if Bool.eqb (is_ok r) (is_ok pre && cred_ok a m (ac_username c) (ac_password c)) then Some m else None
     (* what a restarted broker loads, and the document it would load it from *)
-    | OReload, XLoaded (Some l) => if same_accounts l m then Some m else None
-    | OFile, XFile (Some d) => if same_accounts d m then Some m else None
+    | OReload, XLoaded (Some l) => if avail && same_accounts l m then Some m else None
+    | OReload, XLoaded None => if avail then None else Some m
+    | OFile, XFile (Some d) => if avail && same_accounts d m then Some m else None
+    | OFile, XFile None => if avail then None else Some m
     | _, _ => None
     end.
 
-  Fixpoint o_run (a : halg) (m : amap) (ops : list aop) (outs : list aout) : bool :=
+  Definition o_avail (avail : bool) (o : aop) : bool :=
+    match o with OBreak b => negb b | _ => avail end.
+
+  Fixpoint o_run (a : halg) (avail : bool) (m : amap) (ops : list aop) (outs : list aout) : bool :=
     match ops, outs with
     | [], [] => true
     | o :: ops', x :: outs' =>
-        match o_step a m o x with Some m' => o_run a m' ops' outs' | None => false end
+        match o_step a avail m o x with
+        | Some m' => o_run a (o_avail avail o) m' ops' outs'
+        | None => false
+        end
     | _, _ => false
     end.
 
@@ -90,51 +104,39 @@ Section Oracle.
   (* outs = None: the plugin refused to load *)
   Definition c19_ok (c : acfg) (init : option pwfile) (ops : list aop) (outs : option (list aout)) : bool :=
     match init with
-    | None => match outs with Some l => o_run (a_alg c) [] ops l | None => false end
+    | None => match outs with Some l => o_run (a_alg c) true [] ops l | None => false end
     | Some d =>
         if file_wf d
-        then match outs with Some l => o_run (a_alg c) d ops l | None => false end
+        then match outs with Some l => o_run (a_alg c) true d ops l | None => false end
         else match outs with None => true | Some _ => false end       (* fail closed *)
     end.
 
   (* CONNECT over the wire, broker with this plugin only: [code] = None is CONNACK(success).
      For a CONNECT the broker can otherwise serve: version 3, 4 or 5 and a client id. *)
   Definition connect_servable (allow_zero : bool) (c : aconnect) : bool :=
-    (au_v3x (cn_version c) || au_v5 (cn_version c)) && (allow_zero || negb (is_empty (cn_cid c))).
+    (au_v3x (ac_version c) || au_v5 (ac_version c)) && (allow_zero || negb (is_empty (ac_cid c))).
 
   Definition c19_connect_ok (a : halg) (m : amap) (c : aconnect) (code : option N) : bool :=
     Bool.eqb (match code with None => true | Some _ => false end)
-             (cred_ok a m (cn_username c) (cn_password c)).
+             (cred_ok a m (ac_username c) (ac_password c)).
 
-  (* ---- known findings ---- *)
-
-  (* F16: the password file is configured by a relative name and some successful Update or
-     Delete ran while the working directory was not the configuration directory - it was
-     written to a file Load does not read *)
-  Fixpoint saved_elsewhere (c : acfg) (s : austate) (ops : list aop) : bool :=
-    match ops with
-    | [] => false
-    | o :: r =>
-        (match au_step_saved H c s o with
-         | Some p => negb (path_eqb p (load_path c))
-         | None => false
-         end) || saved_elsewhere c (fst (au_step H bverify c s o)) r
+  (* the oracle-resolved choice: every hash bcrypt.GenerateFromPassword produced during the
+     run verifies the password it was generated from (checked on the table of the case) *)
+  Definition gen_sound (a : halg) (ops : list aop) : bool :=
+    match a with
+    | Bcrypt => forallb (fun o => match o with OUpdate _ p (Some h) => bverify h p | _ => true end) ops
+    | _ => true
     end.
 
-  Definition kf_pwfile_cwd (c : acfg) (init : option pwfile) (cwd : N) (ops : list aop) : bool :=
-    match au_start c init cwd with
-    | Some s => saved_elsewhere c s ops
-    | None => false
-    end.
-
-  (* the wrapper falls through to `return nil` when validation fails for a client whose
-     Version() is none of 3, 4, 5 (not reachable through the packet decoder) *)
+  (* the protocol levels the packet decoder lets through *)
   Definition known_version (v : N) : bool := au_v3x v || au_v5 v.
-  Definition kf_unknown_version (ops : list aop) : bool :=
-    existsb (fun o => match o with OAuth _ v _ => negb (known_version v) | _ => false end) ops.
+
+  (* ---- known findings (open) ---- *)
+  (* repaired, hence no longer here: kf_pwfile_cwd (54a09b0), kf_unknown_version (bb4907e);
+     their witnesses are corpus/C19/fixed.sx and the Examples C19_fixed_* *)
 
   (* a v5 CONNECT carrying an Authentication Method is never offered to the basic hook; with
      no enhanced-auth hook installed it is refused whatever its user name and password *)
   Definition kf_authmethod_present (c : aconnect) : bool :=
-    au_v5 (cn_version c) && match cn_authmethod c with Some _ => true | None => false end.
+    au_v5 (ac_version c) && match ac_authmethod c with Some _ => true | None => false end.
 End Oracle.
